@@ -25,7 +25,7 @@ def plan(tier, seed, nproc, scale):
     shards = nproc if tier == "quick" else nproc * 4
     per = max(1, total // shards)
     specs = [{"kind": "random", "seed": "%d/%d" % (seed, i), "n": per} for i in range(shards)]
-    specs += [{"kind": "threads", "seed": "%d/t%d" % (seed, i), "runs": 2 if tier == "quick" else 40} for i in range(4 if tier == "quick" else shards)]
+    specs += [{"kind": "threads", "seed": "%d/t%d" % (seed, i), "runs": 2 if tier == "quick" else 12} for i in range(4 if tier == "quick" else nproc)]
     return specs
 
 
@@ -123,7 +123,7 @@ def run_shard(spec, rec):
         text = G.render(q, R, feat=rec.features)
         via = R.choice(["find", "finditer", "finditer"])
         if R.random() < 0.25:
-            via = ("reuse", D.doc_for(R, q, maxdepth=3, maxwidth=3))
+            via = ("reuse", D.doc_for(R, q, maxdepth=3, maxwidth=3, shapes=0))
         elif R.random() < 0.1:
             via = ("toggle", toggled)
         try:
